@@ -250,6 +250,59 @@ func svgCases(rng *Rng, thorough bool) {
 	}
 }
 
+// payloads with ONE very long line followed by further lines (an embedded base64 image, a long
+// single-line path, a minified JSON profile): a line-reader with a fixed buffer (bufio.Scanner:
+// 64 KiB) silently stops there.  Both tiers; few cases, they are large.
+func longLineCases(rng *Rng) {
+	sizes := []int{60000, 65534, 65535, 65536, 70000}
+	emitFlat := func(side, path string, kp [2]string, value string) {
+		var outs []string
+		var p bool
+		if side == "in" {
+			msg := &rwp.InboundMessage{}
+			setPath(msg.ProtoReflect(), path, value)
+			outs, p = encodeIn(msg)
+		} else {
+			msg := &rwp.OutboundMessage{}
+			setPath(msg.ProtoReflect(), path, value)
+			outs, p = encodeOut(msg)
+		}
+		emit(L(Sym("flat"), Sym(kp[0]), Sym(side), kp[1], value, outsSx(outs, p)))
+		c07stats["long single line (60000..200000 bytes) + further lines"]++
+	}
+	long := func(n int) string {
+		b := make([]byte, n)
+		for i := range b {
+			b[i] = "ABCDEFGHIJKLMNOPQRSTUVWXYZabcdefghijklmnopqrstuvwxyz0123456789+/"[rng.Intn(64)]
+		}
+		return string(b)
+	}
+	mk := func(kind string, n int) string {
+		switch kind {
+		case "svg": // the long line is n bytes INCLUDING its markup; lines before and after
+			pre, post := "<image href=\"data:image/png;base64,", "\"/>"
+			return "<svg>\n  <g id=\"a\">\n" + pre + long(n-len(pre)-len(post)) + post + "\n  <path d=\"M 1 2\n   L 3 4\"/>\n  </g>\n</svg>\n"
+		case "json":
+			pre, post := "\"blob\": \"", "\","
+			return "{\n" + pre + long(n-len(pre)-len(post)) + post + "\n  \"after\": [1,\n 2]\n}"
+		default:
+			return "first line\n" + long(n) + "\nlast line"
+		}
+	}
+	for _, n := range sizes {
+		for path, kp := range flatOut {
+			emitFlat("out", path, kp, mk(kp[0], n))
+		}
+		for path, kp := range flatIn {
+			emitFlat("in", path, kp, mk(kp[0], n))
+		}
+	}
+	emitFlat("out", "PanelTopology.Svgbase", flatOut["PanelTopology.Svgbase"], mk("svg", 200000))
+	emitFlat("out", "PanelTopology.Json", flatOut["PanelTopology.Json"], mk("json", 200000))
+	emitFlat("out", "Message.Message", flatOut["Message.Message"], mk("msg", 200000))
+	emitFlat("in", "Command.SetCalibrationProfile.Json", flatIn["Command.SetCalibrationProfile.Json"], mk("json", 200000))
+}
+
 func genC07(tier string, rng *Rng) {
 	thorough := tier == "thorough"
 	var inPaths, outPaths []string
@@ -291,6 +344,7 @@ func genC07(tier string, rng *Rng) {
 		c07stats["random field combinations"] += 2
 	}
 	svgCases(rng, thorough)
+	longLineCases(rng)
 	// strings.TrimSpace model
 	for i := 0; i < 2000; i++ {
 		var t strings.Builder
